@@ -21,6 +21,12 @@ type N interface {
 type E struct{}
 
 func (e *E) Do(p *int) {}
+
+// same NAME as ifs.Reader, different contract
+type Reader interface {
+	Read(p []byte) (int, error)
+	Extra()
+}
 `
 
 const c05SrcIfs = `package ifs
@@ -325,5 +331,74 @@ func ZZC05Zoo() {
 				}
 			}
 		}
+	}
+}
+
+const c05SrcP = `package u
+
+import (
+	"zzmod/ifs"
+	"zzmod/yamlv3"
+)
+
+type Local interface {
+	Read(p []byte) (int, error)
+}
+
+//«b1»
+//«b2»
+type T1 struct{}
+
+func (t T1) Read(p []byte) (int, error) { return 0, nil }
+
+//«c1»
+type T2 struct{}
+
+func (t *T2) Read(p []byte) (int, error) { return 0, nil }
+func (t *T2) Close() error               { return nil }
+
+var _ ifs.Reader
+var _ yaml.Reader
+`
+
+var c05PairAlts = []string{" @implements ifs.Reader", " @implements &ifs.Reader", " @implements yaml.Reader", " @implements &yaml.Reader", " @implements Local", " @implements ifs.RC", " @implements &ifs.RC", " @implements nope.Reader", " @implements ifs.Nope", " plain"}
+
+// ZZC05Pairs: TWO annotation lines on one type and a third on a second type at the same time, over spellings that include
+// same-named interfaces of different packages (ifs.Reader / yaml.Reader / Local): every line gets its own verdict — the
+// number of diagnostics of each code on each type equals the number of its lines with that go/types verdict.
+func ZZC05Pairs() {
+	b1 := nd.PinStr(nd.EnumPad("b1", c05PairAlts...))
+	b2 := nd.PinStr(nd.EnumPad("b2", c05PairAlts...))
+	c1 := nd.PinStr(nd.EnumPad("c1", c05PairAlts...))
+	// the same spelling twice on one type is outside the claim (the property does not say whether it is reported twice)
+	nd.Assume(nd.Or(b1 != b2, nd.HasPrefix(b1, " plain")))
+	holes := []nd.Hole{{"b1", b1}, {"b2", b2}, {"c1", c1}}
+	files := []nd.File{{Pkg: "zzmod/yamlv3", Name: "y.go", Src: c05SrcYaml}, {Pkg: "zzmod/ifs", Name: "i.go", Src: c05SrcIfs}, {Pkg: "zzmod/u", Name: "u.go", Src: c05SrcP}}
+	prog := nd.LoadProgram(files, holes)
+	res := Analyze(prog, config.Default(), "zzmod/u", Facts{}, "impl")
+	file := "/zz/zzmod/u/u.go"
+	for _, tc := range []struct {
+		tn    string
+		lines []string
+	}{{"T1", []string{b1, b2}}, {"T2", []string{c1}}} {
+		line := nd.LineOf(c05SrcP, "type "+tc.tn+" struct")
+		for _, code := range []string{"IMPL01", "IMPL02", "IMPL03"} {
+			want := 0
+			for _, l := range tc.lines {
+				if c05GoVerdict(prog, tc.tn, l) == code {
+					want++
+				}
+			}
+			got := 0
+			for _, d := range res.Diags {
+				if d.File == file && d.Line == line && d.Code == code {
+					got++
+				}
+			}
+			nd.Assert(got == want, "C05 every annotation line of every type gets its own verdict (count per type and code agrees with go/types)")
+		}
+	}
+	for _, d := range res.Diags {
+		nd.Assert(d.File == file && (d.Line == nd.LineOf(c05SrcP, "type T1 struct") || d.Line == nd.LineOf(c05SrcP, "type T2 struct")), "C05 no diagnostic elsewhere")
 	}
 }
